@@ -56,14 +56,14 @@ type BucketCase struct {
 }
 
 type SOp struct {
-	Dt       int64 `json:"dt"`
-	Name     int   `json:"name"`
-	Inst     int   `json:"inst"`
-	StartOff int64 `json:"start_off"` // StartsAt = now + StartOff
-	EndOff   int64 `json:"end_off"`   // EndsAt = now + EndOff ; ZeroEnd overrides
-	UpdOff   int64 `json:"upd_off"`
-	Timeout  bool  `json:"timeout,omitempty"`
-	ZeroEnd  bool  `json:"zero_end,omitempty"`
+	Dt       int64  `json:"dt"`
+	Name     int    `json:"name"`
+	Inst     int    `json:"inst"`
+	StartOff int64  `json:"start_off"` // StartsAt = now + StartOff
+	EndOff   int64  `json:"end_off"`   // EndsAt = now + EndOff ; ZeroEnd overrides
+	UpdOff   int64  `json:"upd_off"`
+	Timeout  bool   `json:"timeout,omitempty"`
+	ZeroEnd  bool   `json:"zero_end,omitempty"`
 	EndAbs   string `json:"end_abs,omitempty"`   // EndsAt = absInstants[EndAbs] instead
 	StartAbs string `json:"start_abs,omitempty"` // StartsAt = absInstants[StartAbs] instead
 }
@@ -391,6 +391,7 @@ func genStore(r *vh.Rand, maxOps int) *StoreCase {
 	if bursty {
 		ninst = c.N + r.Range(2, 5)
 	}
+	far := r.Chance(1, 4) // a case in which far-future ends dominate (all items of a bucket may lie beyond 2262)
 	left := 0
 	for i := 0; i < n; i++ {
 		dt := vh.Pick(r, []int64{0, 0, 1, sec, 30 * sec, min, min, 2 * min, 5 * min, 10 * min, 20 * min})
@@ -415,16 +416,20 @@ func genStore(r *vh.Rand, maxOps int) *StoreCase {
 		if r.Chance(1, 40) {
 			op.ZeroEnd = true
 		}
+		// ends beyond the int64-nanosecond range (2262-04-11 +-1ns, 2300, 9999-12-31) and, rarely, pre-1970 instants
+		if far && r.Chance(2, 3) {
+			op.EndAbs = vh.Pick(r, farPool)
+		} else if r.Chance(1, 10) {
+			op.EndAbs = vh.Pick(r, farPool)
+		} else if r.Chance(1, 40) {
+			op.EndAbs = vh.Pick(r, pastPool)
+		}
+		if r.Chance(1, 40) {
+			op.StartAbs = vh.Pick(r, []string{"y1969", "y1900", "y1677"})
+		}
 		c.Ops = append(c.Ops, op)
 	}
 	return c
-}
-
-func zt(t time.Time) int64 {
-	if t.IsZero() {
-		return 0
-	}
-	return t.UnixNano()
 }
 
 func coqAlert(a *types.Alert) string {
@@ -525,6 +530,14 @@ func runStore(t *testing.T, c *Case) *result {
 				},
 				UpdatedAt: now.Add(time.Duration(op.UpdOff)),
 				Timeout:   op.Timeout,
+			}
+			if op.StartAbs != "" {
+				a.StartsAt = absInstants[op.StartAbs]
+				res.tags["put-start-"+op.StartAbs]++
+			}
+			if op.EndAbs != "" {
+				a.EndsAt = absInstants[op.EndAbs]
+				res.tags["put-end-"+op.EndAbs]++
 			}
 			if op.ZeroEnd {
 				a.EndsAt = time.Time{}
